@@ -38,6 +38,7 @@ struct VecDriver {
     bool moved[3]         = {false, false, false};
     std::vector<int> model[3];
     bool misuse;
+    char const* answerProp = nullptr; // see DriverBase::answerProp
 
     VecDriver(Plan const& p, Ctx& c)
         : plan(p)
@@ -285,6 +286,9 @@ struct VecDriver {
                 }
             } else {
                 ctx.violation("C05", "contract:spurious", "handler entered on a valid call at " + trap_site());
+                if (answerProp != nullptr) {
+                    ctx.violation(answerProp, "refusal:trapped-instead", "a call with a documented answer at capacity entered the handler at " + trap_site());
+                }
                 ctx.log.s(" ->spurious-trap");
                 resync(s);
             }
@@ -584,7 +588,8 @@ struct VecDriver {
 
     void begin_op(char const* name, int a)
     {
-        ctx.op     = name;
+        ctx.op           = name;
+        this->answerProp = nullptr;
         crash_set_op(name);
         ctx.log.s(name);
         ctx.log.kv("a", a);
@@ -676,16 +681,29 @@ struct VecDriver {
                     skip();
                     return;
                 }
-                int const val = static_cast<int>(st.v[0]);
+                // F6: the argument is one of the vector's own elements
+                bool const alias = copyable && op != "push_back_move" && !full && sz > 0 && st.k[1] % 4 == 0;
+                int val          = static_cast<int>(st.v[0]);
+                size_t aliasIdx  = 0;
+                if (alias) {
+                    aliasIdx = static_cast<size_t>(st.k[2] % sz);
+                    val      = m[aliasIdx];
+                    SIM_COUNT("F6.aliasing_push_back");
+                }
                 ctx.log.kv("v", val);
+                ctx.log.kv("alias", alias);
                 T tmp = mk(val);
                 bool ok = call(a, full, false, [&] {
                     if (op == "push_back_copy") {
                         if constexpr (copyable) {
-                            v.push_back(static_cast<T const&>(tmp));
+                            v.push_back(alias ? static_cast<T const&>(v[aliasIdx]) : static_cast<T const&>(tmp));
                         }
                     } else if (op == "push_back_move") {
                         v.push_back(static_cast<T&&>(tmp));
+                    } else if (alias) {
+                        if constexpr (copyable) {
+                            v.emplace_back(static_cast<T const&>(v[aliasIdx]));
+                        }
                     } else {
                         v.emplace_back(earg(val));
                     }
@@ -724,7 +742,7 @@ struct VecDriver {
                     skip();
                     return;
                 }
-                bool const alias = op == "insert_copy" && !badPos && !full && sz > 0 && st.k[1] % 4 == 0;
+                bool const alias = copyable && op != "insert_move" && !badPos && !full && sz > 0 && st.k[1] % 4 == 0;
                 int val          = static_cast<int>(st.v[0]);
                 size_t aliasIdx  = 0;
                 if (alias) {
@@ -749,6 +767,10 @@ struct VecDriver {
                         }
                     } else if (op == "insert_move") {
                         ret = v.insert(where, static_cast<T&&>(tmp));
+                    } else if (alias) {
+                        if constexpr (copyable) {
+                            ret = v.emplace(where, static_cast<T const&>(v[aliasIdx]));
+                        }
                     } else {
                         ret = v.emplace(where, earg(val));
                     }
@@ -771,13 +793,23 @@ struct VecDriver {
                         n   = static_cast<size_t>(beyond(room + 1, st.flt));
                         bad = true;
                     }
-                    int const val = static_cast<int>(st.v[0]);
+                    bool const alias = !bad && sz > 0 && st.k[2] % 4 == 0;
+                    int val          = static_cast<int>(st.v[0]);
+                    size_t aliasIdx  = 0;
+                    if (alias) {
+                        aliasIdx = static_cast<size_t>(st.v[1] % sz);
+                        val      = m[aliasIdx];
+                        SIM_COUNT("F6.aliasing_insert_n");
+                    }
                     ctx.log.kv("pos", static_cast<long long>(pos));
                     ctx.log.kv("n", static_cast<long long>(n));
                     ctx.log.kv("v", val);
+                    ctx.log.kv("alias", alias);
                     T tmp = mk(val);
                     typename Vec::iterator ret{};
-                    bool ok = call(a, bad, false, [&] { ret = v.insert(v.cbegin() + static_cast<long>(pos), n, static_cast<T const&>(tmp)); });
+                    bool ok = call(a, bad, false, [&] {
+                        ret = v.insert(v.cbegin() + static_cast<long>(pos), n, alias ? static_cast<T const&>(v[aliasIdx]) : static_cast<T const&>(tmp));
+                    });
                     if (ok) {
                         m.insert(m.begin() + static_cast<long>(pos), n, val);
                         if (ret - v.begin() != static_cast<long>(pos)) {
@@ -929,15 +961,23 @@ struct VecDriver {
                         n   = static_cast<size_t>(beyond(N + 1, st.flt));
                         bad = true;
                     }
-                    int const val = static_cast<int>(st.v[0]);
+                    bool const alias = op == "resize_val" && !bad && sz > 0 && st.k[1] % 4 == 0;
+                    int val          = static_cast<int>(st.v[0]);
+                    size_t aliasIdx  = 0;
+                    if (alias) {
+                        aliasIdx = static_cast<size_t>(st.k[2] % sz);
+                        val      = m[aliasIdx];
+                        SIM_COUNT("F6.aliasing_resize");
+                    }
                     ctx.log.kv("n", static_cast<long long>(n));
+                    ctx.log.kv("alias", alias);
                     T tmp = mk(val);
                     bool ok = call(a, bad, false, [&] {
                         if (op == "resize") {
                             v.resize(n);
                         } else {
                             if constexpr (copyable) {
-                                v.resize(n, static_cast<T const&>(tmp));
+                                v.resize(n, alias ? static_cast<T const&>(v[aliasIdx]) : static_cast<T const&>(tmp));
                             }
                         }
                     });
@@ -1069,11 +1109,24 @@ struct VecDriver {
             }
             if (op == "move_assign") {
                 if constexpr (etl::is_assignable_v<T&, T&>) {
-                    if (obj[b] == nullptr || moved[b] || a == b) {
-                        skip(); // self-move-assignment leaves an unspecified value in std as well: not generated
+                    if (obj[b] == nullptr || moved[b]) {
+                        skip();
                         return;
                     }
                     ctx.log.kv("b", b);
+                    if (a == b) {
+                        // F6: self-move-assignment through an alias leaves an unspecified value in std as well: the
+                        // object is treated as moved-from afterwards (valid, size <= capacity, every live element
+                        // inside [begin, end) and destroyed exactly once, assignable / clearable / destructible)
+                        SIM_COUNT("F6.self_move_assign");
+                        Vec& alias = *obj[b];
+                        bool ok    = call(a, false, false, [&] { v = static_cast<Vec&&>(alias); });
+                        if (ok) {
+                            moved[a] = true;
+                            ++ctx.boundaryEvents;
+                        }
+                        return;
+                    }
                     bool ok = call(a, false, false, [&] { v = static_cast<Vec&&>(*obj[b]); });
                     if (ok) {
                         model[a] = model[b];
@@ -1369,6 +1422,9 @@ struct VecDriver {
                 ctx.log.kv("v", val);
                 T tmp  = mk(val);
                 T* ret = nullptr;
+                if (sz == N) {
+                    this->answerProp = "C01";
+                }
                 bool ok = call(a, false, false, [&] {
                     if (op == "try_push_back_copy") {
                         if constexpr (copyable) {
@@ -1376,6 +1432,9 @@ struct VecDriver {
                         }
                     } else if (op == "try_push_back_move") {
                         ret = v.try_push_back(static_cast<T&&>(tmp));
+                    } else if (st.k[1] % 2 == 1) {
+                        // emplace from an rvalue element: a refused call must leave the argument alone as well
+                        ret = v.try_emplace_back(static_cast<T&&>(tmp));
                     } else {
                         ret = v.try_emplace_back(earg(val));
                     }
